@@ -6,6 +6,7 @@ import Driver.Boxing
 import Driver.C08
 import Driver.Early
 import Driver.Registry
+import Driver.PidRegistry
 import Driver.Pg
 import Driver.C16
 import Driver.C20
@@ -36,6 +37,7 @@ def main (args : List String) : IO UInt32 := do
       | "c08" => Driver.C08.run ops impl
       | "c07-early" => Driver.EarlyD.run ops impl
       | "registry" => Driver.Registry.run ops impl
+      | "pidreg" => Driver.PidRegistry.run ops impl
       | "pg" => Driver.Pg.run ops impl
       | "c16" => Driver.C16.run ops impl
       | "c20" => Driver.C20.run ops impl
